@@ -27,7 +27,7 @@ ASSUMPTIONS = [
 
 LATTICE = [0, 1, 2, 3]
 STAGE = st.fixed_dictionaries({
-    "mode": st.sampled_from(["deferred", "deferred", "sync"]),
+    "mode": st.sampled_from(["deferred", "deferred", "sync", "chained"]),
     "delay": st.sampled_from(LATTICE),
     "result": st.sampled_from(["ok", "ok", "ok", "ok", "error", "fail", "skip"]),
     "never": st.sampled_from([False] * 9 + [True]),
@@ -81,8 +81,8 @@ def model(spec):
             bad.add("error")
         if s["drop_failed"]:
             bad.add("error")
-        dur = s["delay"] if s["mode"] == "deferred" else 0
-        fire = None if (s["mode"] == "deferred" and s["never"]) else t + dur
+        dur = s["delay"] if s["mode"] in ("deferred", "chained") else 0
+        fire = None if (s["mode"] in ("deferred", "chained") and s["never"]) else t + dur
         cut = min([x for x in (T, ti) if x is not None])
         if fire is None or cut < fire:
             terminated = "timeout" if (ti is None or T < ti) else ("interrupt" if ti < T else "tie")
@@ -91,7 +91,7 @@ def model(spec):
                 terminated = "timeout"
             t = cut
             break
-        if cut == fire and s["mode"] == "deferred":
+        if cut == fire and s["mode"] in ("deferred", "chained"):
             tie = True
         t = fire
         if s["result"] != "ok":
@@ -168,13 +168,19 @@ def run_case(spec):
                     raise exc()
                 return None
             d = defer.Deferred()
+            if s["mode"] == "chained":
+                # already fired, but its chain is paused on an inner Deferred that has not fired yet
+                outer = defer.succeed(None)
+                outer.addCallback(lambda _: d)
+            else:
+                outer = d
             if s["never"]:
-                return d
+                return outer
             if s["result"] == "ok":
                 reactor.callLater(s["delay"], d.callback, None)
             else:
                 reactor.callLater(s["delay"], d.errback, exc())
-            return d
+            return outer
 
         class T(testtools.TestCase):
             run_tests_with = factory
@@ -276,7 +282,14 @@ def run_case(spec):
         # (collect this case's garbage first: a failed Deferred dropped by a run that was cut short is
         # reported by Twisted whenever it happens to be collected, which must not hit a later case)
         import gc
+        n_stage = len(stage_log)
         gc.collect(0)
+        if len(stage_log) != n_stage:
+            vs.append(V("stage-order", "stage-ran-after-the-run", "after run() had returned (at garbage collection) further stages ran: %r" % (stage_log[n_stage:],)))
+        if reactor.getDelayedCalls():
+            vs.append(V("clean", "delayed-calls-appear-later", "delayed calls were scheduled after the run had finished: %d" % len(reactor.getDelayedCalls())))
+            for c_ in reactor.getDelayedCalls():
+                c_.cancel()
         reactor2 = VReactor()
         Followup.run_tests_with = cls.make_factory(reactor=reactor2, timeout=5)
         res2 = Ext()
@@ -295,7 +308,7 @@ def run_case(spec):
     # collection off everything created by this case is still in the youngest generation
     _QUIET.append(None)
     gc.collect(0) if len(_QUIET) % 300 else gc.collect()
-    unfired = any(s["mode"] == "deferred" and (s["delay"] > 0 or s["never"]) for s in [spec["setUp"], spec["test"], spec["tearDown"]] + spec["cleanups"])
+    unfired = any(s["mode"] in ("deferred", "chained") and (s["delay"] > 0 or s["never"]) for s in [spec["setUp"], spec["test"], spec["tearDown"]] + spec["cleanups"])
     abnormal = len(m["bad"]) + (1 if m["terminated"] else 0)
     nt = unfired and (abnormal >= 2 or m["tie"] or spec["interrupt"] is not None)
     return Case(vs, nt, ["terminated=%s" % m["terminated"], "tie" if m["tie"] else "", "variant=" + spec["variant"],
